@@ -29,6 +29,122 @@ def swap_leaf(tree, rnd, same_dim_groups, leaves):
     return tree
 
 
+FRACS = [(1, 2), (1, 3), (1, 4), (1, 6), (2, 3), (3, 4), (3, 2), (5, 6), (1, 8), (3, 8), (5, 4), (1, 12)]
+
+
+def frac_power(x, n, d, rnd):
+    """x^(n/d) spelled one of several ways"""
+    if d == 1:
+        return x if n == 1 else ("pow", x, n)
+    r = rnd.random()
+    if d == 2 and r < 0.3:
+        inner = ("alias", "sqrt", x)
+    elif d == 3 and r < 0.3:
+        inner = ("alias", "cbrt", x)
+    elif d % 2 == 0 and d > 2 and r < 0.5:
+        inner = ("root", ("root", x, 2), d // 2)          # nested roots
+    else:
+        inner = ("root", x, d)
+    if n == 1:
+        return inner
+    return ("pow", inner, n) if rnd.random() < 0.6 else ("root", ("pow", x, n), d)
+
+
+def gen_rational_power_tree(rnd, names):
+    """Products/quotients of several rational powers of the *same* named unit (and of the same magnitude base), e.g.
+    root<4>(m) * root<4>(m),  cbrt(m) * root<6>(m),  root<4>(pow<3>(m)) / root<4>(m): the exponent sums must come out
+    reduced, so that every spelling of the same power is one type."""
+    x = ("leaf", rnd.choice(names))
+    terms = []
+    total = Fraction(0)
+    for _ in range(rnd.choice([2, 2, 3])):
+        n, d = rnd.choice(FRACS)
+        sign = 1 if rnd.random() < 0.7 else -1
+        terms.append((frac_power(x, n, d, rnd), sign))
+        total += sign * Fraction(n, d)
+    if total == 0:
+        terms.append((x, 1))
+    t = None
+    for term, sign in terms:
+        t = term if t is None and sign > 0 else ("alias", "inverse", term) if t is None else (("mul" if sign > 0 else "div"), t, term)
+    if rnd.random() < 0.5:
+        y = ("leaf", rnd.choice(names))
+        t = (rnd.choice(["mul", "div"]), t, y) if rnd.random() < 0.5 else ("mul", y, t)
+    if rnd.random() < 0.5:
+        p = rnd.choice([2, 3, 5, 7, 10])
+        ms = []
+        for _ in range(rnd.choice([2, 3])):
+            n, d = rnd.choice(FRACS)
+            m = ("mroot", ("int", p), d) if d > 1 else ("int", p)
+            ms.append(m if n == 1 else ("mpow", m, n))
+        mm = ms[0]
+        for m in ms[1:]:
+            mm = (rnd.choice(["mmul", "mdiv"]), mm, m)
+        if model.mag_eval(mm):
+            t = ("scale", t, mm, rnd.choice("*/"))
+    return t
+
+
+def is_pure(tree):
+    """only products, quotients, powers and roots of named library units (no scaling, no prefix)"""
+    k = tree[0]
+    if k == "leaf":
+        return True
+    if k in ("mul", "div"):
+        return is_pure(tree[1]) and is_pure(tree[2])
+    if k in ("pow", "root"):
+        return is_pure(tree[1])
+    if k == "alias":
+        return is_pure(tree[2])
+    return False
+
+
+def canon_mag(mm):
+    """magnitude tree with every prime once, carrying its total reduced exponent"""
+    out = None
+    for b, f in sorted(mm.items(), key=lambda kv: str(kv[0])):
+        m = ("pi",) if b == "pi" else ("int", b)
+        if f.denominator != 1:
+            m = ("mroot", m, f.denominator)
+        if f.numerator != 1:
+            m = ("mpow", m, f.numerator)
+        out = m if out is None else ("mmul", out, m)
+    return out
+
+
+def collapse_powers(tree, leaves):
+    """A model-equal spelling which the statement requires to be the *identical type*: inside a pure product/power
+    subtree every named unit appears once with its total (reduced) exponent; a (possibly nested) scaling applied on top of
+    such a subtree is applied once, each prime with its total reduced exponent.  Scalings are never moved across a
+    product or power (the library does not, and the statement does not ask it to)."""
+    if tree[0] == "scale":
+        m = model.mag_eval(tree[2])
+        if tree[3] == "/":
+            m = model.einv(m)
+        inner = tree[1]
+        while inner[0] == "scale":
+            mi = model.mag_eval(inner[2])
+            m = model.emul(m, model.einv(mi) if inner[3] == "/" else mi)
+            inner = inner[1]
+        ci = collapse_powers(inner, leaves)
+        if ci is None:
+            return None
+        cm = canon_mag(m)
+        return ci if cm is None else ("scale", ci, cm, "*")
+    if not is_pure(tree):
+        return None
+    e = model.ev(tree, leaves)
+    t = None
+    for name, f in sorted(e.bases.items(), key=lambda kv: (kv[1] < 0, kv[0])):
+        x = ("leaf", name)
+        if f.denominator != 1:
+            x = ("root", x, f.denominator)
+        num = f.numerator
+        term = x if abs(num) == 1 else ("pow", x, abs(num))
+        t = (term if num > 0 else ("alias", "inverse", term)) if t is None else (("mul" if num > 0 else "div"), t, term)
+    return t
+
+
 def gen_tu(ti, rnd, units, leaves, ntrees):
     names = sorted(units)
     groups = {}
@@ -41,7 +157,7 @@ def gen_tu(ti, rnd, units, leaves, ntrees):
     guard = 0
     while len(trees) < ntrees and guard < ntrees * 30:
         guard += 1
-        t = model.gen_tree(rnd, names, rnd.choice([1, 2, 2, 3, 3]))
+        t = gen_rational_power_tree(rnd, names) if len(trees) % 6 == 5 else model.gen_tree(rnd, names, rnd.choice([1, 2, 2, 3, 3]))
         if model.count_leaves(t) > 8:
             filtered["too_big"] += 1
             continue
@@ -61,6 +177,14 @@ def gen_tu(ti, rnd, units, leaves, ntrees):
             group.append((f"v{j}", "unit", model.reassociate(t, rnd)))
         for st in STYLES:
             group.append((f"s_{st}", st, t if rnd.random() < 0.5 else model.reassociate(t, rnd)))
+        # scaling by a magnitude that is exactly one (mag<1>(), m/m, a product that cancels) must change nothing
+        k1 = rnd.choice([2, 3, 7, 12, 1000])
+        one = rnd.choice([("int", 1), ("mdiv", ("int", k1), ("int", k1)), ("mmul", ("mroot", ("int", k1), 2), ("mpow", ("mroot", ("int", k1), 2), -1)),
+                          ("mdiv", ("mmul", ("pi",), ("int", k1)), ("mmul", ("int", k1), ("pi",)))])
+        group.append(("one", "unit", ("scale", t, one, rnd.choice("*/"))))
+        col = collapse_powers(t, leaves)
+        if col is not None and model.ev(col, leaves).key() == model.ev(t, leaves).key():
+            group.append(("collapsed", "unit", col))
         sib = swap_leaf(t, rnd, groups, leaves)
         sib_ok = not model.has_ordering_tie(sib, leaves) and model.max_exp_ok(model.ev(sib, leaves))
         if sib_ok:
@@ -155,7 +279,7 @@ def run(chk, which="C02"):
                 if model.ekey(got_dim) != model.ekey(m.dim) or model.ekey(got_mag) != model.ekey(m.mag):
                     chk.violation(f'C02|value|expr={e["expr"][:200]}', msg=f'{e["expr"][:300]}: library dim/mag {model.ekey(got_dim)} / {model.ekey(got_mag)} != exact {model.ekey(m.dim)} / {model.ekey(m.mag)}')
                 distinct_types.add(ev["tid"])
-                if e["sub"] != "sib":
+                if e["sub"] not in ("sib", "one"):
                     key = m.key()
                     prev = global_ids.get(key)
                     if prev is None:
